@@ -20,6 +20,10 @@ let dispatch f args = match f, args with
   | "key_from_sec", [p; a; b; sec] ->
       show_outcome (show_pair show_pt show_bool) (key_from_sec (arg_z p) (arg_z a) (arg_z b) (arg_bytes sec))
   | "key_public", [p; a; b; x; y] -> show_outcome show_pt (key_public (arg_z p) (arg_z a) (arg_z b) (arg_z x, arg_z y))
+  | "key_public_arg", [p; a; b; kind; cp; ca; cb; x; y] ->
+      let k = (match arg_int kind with 0 -> Pr_tuple | 1 -> Pr_list | _ -> Pr_point (arg_z cp, arg_z ca, arg_z cb)) in
+      let o t = if t = "N" then None else Some (arg_z t) in
+      show_outcome show_pt (key_public_arg (arg_z p) (arg_z a) (arg_z b) { pa_kind = k; pa_x = o x; pa_y = o y })
   | "key_private", [n; e] -> show_outcome show_z (key_private (arg_z n) (arg_z e))
   | "wif_payload", [pre; se; c] -> show_outcome show_bytes (wif_payload (arg_bytes pre) (arg_z se) (arg_bool c))
   | "parse_wif_payload", [pre; n; d] ->
